@@ -3460,12 +3460,17 @@ class SFTPClientFile:
         data = b''
 
         if offset is not None:
-            if size is None or size < 0:
+            to_eof = size is None or size < 0
+
+            if to_eof:
                 size = max((await self._end()) - offset, 0)
 
             try:
-                if self.read_len and size > \
-                        min(self.read_len, self._handler.limits.max_read_len):
+                # A single request may be answered with less data than was
+                # asked for, so reading up to the end of the file always
+                # takes the path which continues short reads
+                if self.read_len and (to_eof or size >
+                        min(self.read_len, self._handler.limits.max_read_len)):
                     data = await _SFTPFileReader(
                         self.read_len, self._max_requests, self._handler,
                         self._handle, offset, size).run()
